@@ -53,13 +53,45 @@ def _check_matching(graph):
         return 'raised %r' % (e,)
     n = len(graph)
     if res is None:
-        return 'returns None although a perfect matching exists' if _brute(graph) else None
+        return 'returns None although a perfect matching exists' if _perfect_exists(graph) else None
     if len(res) != n:
         return 'result has wrong length'
     for i, j in enumerate(res):
         if j is None or not (0 <= j < n) or res[j] != i or j not in graph[i] or i == j:
             return 'result %r is not a perfect matching' % (res,)
     return None
+
+
+def _perfect_exists(graph):
+    if len(graph) <= 12:
+        return _brute(graph)
+    import networkx as nx
+    G = nx.Graph()
+    G.add_nodes_from(range(len(graph)))
+    G.add_edges_from((i, j) for i, a in enumerate(graph) for j in a)
+    return 2 * len(nx.max_weight_matching(G, maxcardinality=True)) == len(graph)
+
+
+def _regular_bipartite(rnd, k, d):
+    """union of d random perfect matchings between two sides of k nodes (so a perfect matching exists), relabelled,
+    adjacency shuffled: with equal degrees everywhere the greedy start of find_perfect_matching leaves several
+    unmatched pairs, and the augmenting searches have to run more than once on the same component"""
+    g = [set() for _ in range(2 * k)]
+    for _ in range(d):
+        R = list(range(k, 2 * k))
+        rnd.shuffle(R)
+        for a, b in zip(range(k), R):
+            g[a].add(b)
+            g[b].add(a)
+    perm = list(range(2 * k))
+    rnd.shuffle(perm)
+    h = [[] for _ in range(2 * k)]
+    for a in range(2 * k):
+        for b in g[a]:
+            h[perm[a]].append(perm[b])
+    for a in h:
+        rnd.shuffle(a)
+    return h
 
 
 def _graphs(n):
@@ -98,6 +130,69 @@ def _mwork(job):
     return cnt, nt, bad
 
 
+def _hex_patch(rnd, rows, cols):
+    """a random connected-ish subgraph of the hexagonal (brick-wall) lattice: bipartite, degree <= 3, i.e. the shape of
+    the delocalised subgraphs kekulize() hands to find_perfect_matching; nodes relabelled and adjacency lists shuffled"""
+    nodes = [(r, c) for r in range(rows) for c in range(cols)]
+    edges = set()
+    for r in range(rows):
+        for c in range(cols):
+            if c + 1 < cols:
+                edges.add(((r, c), (r, c + 1)))
+            if r + 1 < rows and (r + c) % 2 == 0:
+                edges.add(((r, c), (r + 1, c)))
+    drop = set(rnd.sample(nodes, rnd.randint(0, max(1, len(nodes) // 5))))
+    keep = [v for v in nodes if v not in drop]
+    rnd.shuffle(keep)
+    idx = {v: k for k, v in enumerate(keep)}
+    g = [[] for _ in keep]
+    for a, b in edges:
+        if a in idx and b in idx and rnd.random() > 0.06:
+            g[idx[a]].append(idx[b])
+            g[idx[b]].append(idx[a])
+    for a in g:
+        rnd.shuffle(a)
+    return g
+
+
+def _bwork(job):
+    """find_perfect_matching on bipartite lattice patches against networkx (the BFS without blossoms is complete on
+    bipartite graphs, so every disagreement is a defect of the search, not the recorded non-bipartite finding)"""
+    import random
+    import networkx as nx
+    seed, count = job
+    rnd = random.Random(seed)
+    import sys
+    import selfies  # noqa
+    M = sys.modules['selfies.utils.matching_utils']
+    bad, nt = [], 0
+    for it in range(count):
+        if it % 2:
+            g = _regular_bipartite(rnd, rnd.choice((60, 120, 200)), 3)
+            perfect = True
+        else:
+            g = _hex_patch(rnd, rnd.randint(2, 6), rnd.randint(3, 9))
+            perfect = _perfect_exists(g)
+        nt += perfect
+        try:
+            res = M.find_perfect_matching([list(a) for a in g])
+        except Exception as e:
+            res = 'raised %r' % (e,)
+        r = None
+        if isinstance(res, str):
+            r = res
+        elif res is None:
+            r = 'returns None although a perfect matching exists' if perfect else None
+        elif len(res) != len(g) or any(j is None or res[j] != i or j not in g[i] for i, j in enumerate(res)):
+            r = 'result %r is not a perfect matching' % (res,)
+        elif not perfect:
+            r = 'returns a matching although none exists'
+        if r and len(bad) < 2:
+            bad.append({'clause': 'C05:matching', 'detail': r, 'input': {'graph': g}, 'features': {'nodes': len(g),
+                                                                                                   'bipartite': True}})
+    return count, nt, bad
+
+
 KNOWN_GRAPH = [[4, 1], [4, 0, 6], [3, 4], [5, 7, 2], [2, 0, 1], [6, 3], [1, 7, 5], [3, 6]]
 
 _enc_floor = floor
@@ -115,12 +210,16 @@ def floor(ctx):
     if ctx.tier == 'thorough':
         pass
     mres = pmap(_mwork, jobs)
+    nb = 400 if ctx.tier == 'quick' else 6000
+    mres += pmap(_bwork, [(ctx.seed * 1000 + k, nb) for k in range(16)])
     res['evaluations'] += sum(r[0] for r in mres)
     res['distinct_nontrivial'] += sum(r[1] for r in mres)
     res['violations'] += [b for r in mres for b in r[2]]
     res['rule'] += ('; find_perfect_matching vs brute force on ALL labelled graphs with 2, 4, 6 nodes, each with rotated '
                     'and reversed adjacency lists (exhaustive; the recorded 8-node counterexample is replayed as a '
-                    'known finding)')
+                    'known finding); plus seeded random patches of the hexagonal lattice (bipartite, degree <= 3, up to 54 '
+                    'nodes, relabelled, shuffled adjacency) against networkx maximum matching, and random 3-regular bipartite '
+                    'graphs with a planted perfect matching (120-400 nodes; the greedy start leaves several unmatched pairs)')
     return res
 
 
